@@ -36,6 +36,23 @@ def transportView : List Step → List Event
   | .fire .transport ev :: r => ev :: transportView r
   | _ :: r => transportView r
 
+/-! ### what one listener sees -/
+
+def symOf (o : H) : Obs → Option Sym
+  | .call .app h ev => if h = o then some (.ev ev) else none
+  | .call _ _ _ => none
+  | .user => some .user
+
+/-- what the application-level listener `o` sees of a trace, together with the runs of the user function -/
+def symView (o : H) (t : List Obs) : List Sym := t.filterMap (symOf o)
+
+def evOf (lvl : Level) (h : H) : Obs → Option Event
+  | .call l h' ev => if l = lvl ∧ h' = h then some ev else none
+  | .user => none
+
+/-- the events for which listener `h` of manager `lvl` is called, in order -/
+def viewOf (lvl : Level) (h : H) (t : List Obs) : List Event := t.filterMap (evOf lvl h)
+
 /-! ### the automaton -/
 
 /-- states; `u` = the user function ran, `r` = it returned normally, `f` = the call ended in a fault -/
